@@ -5,6 +5,7 @@ package hsh
 import (
 	"encoding/json"
 	"fmt"
+	"reflect"
 	"sort"
 	"time"
 
@@ -105,6 +106,7 @@ type pres struct {
 	zone  *time.Location
 	inMsg bool
 	back  bool // set the back-reference (Trip.Vehicle / the vehicle's trip's Vehicle)
+	alias bool // equal values share objects: one *StopTimeEvent for an equal arrival and departure, shared string / number pointers
 }
 
 // Dur is the duration a token of spec/TripHash.tla (DurEnc) stands for.
@@ -160,10 +162,24 @@ func BuildTrip(t Trip, p pres) *gtfs.Trip {
 	if t.Sd != -1 { // -1 stands for time.Time{}; the flag and the value are independent fields
 		out.ID.StartDate = tm(t.Sd, p.zone)
 	}
+	var prev *gtfs.StopTimeUpdate
 	for _, s := range t.Stus {
-		out.StopTimeUpdates = append(out.StopTimeUpdates, gtfs.StopTimeUpdate{StopSequence: u32(s.Seq), StopID: optStr(s.Stop),
+		u := gtfs.StopTimeUpdate{StopSequence: u32(s.Seq), StopID: optStr(s.Stop),
 			NyctTrack: optStr(s.Track), ScheduleRelationship: gtfsrt.TripUpdate_StopTimeUpdate_ScheduleRelationship(s.Sr),
-			Arrival: ev(s.Arr, p), Departure: ev(s.Dep, p)})
+			Arrival: ev(s.Arr, p), Departure: ev(s.Dep, p)}
+		if p.alias { // object identity is not data: share what is equal
+			if u.Arrival != nil && u.Departure != nil && reflect.DeepEqual(*u.Arrival, *u.Departure) {
+				u.Departure = u.Arrival
+			}
+			if u.StopID != nil && u.NyctTrack != nil && *u.StopID == *u.NyctTrack {
+				u.NyctTrack = u.StopID
+			}
+			if prev != nil && prev.Arrival != nil && u.Arrival != nil && reflect.DeepEqual(*prev.Arrival, *u.Arrival) {
+				u.Arrival = prev.Arrival
+			}
+		}
+		out.StopTimeUpdates = append(out.StopTimeUpdates, u)
+		prev = &out.StopTimeUpdates[len(out.StopTimeUpdates)-1]
 	}
 	if p.back {
 		out.Vehicle = &gtfs.Vehicle{ID: &gtfs.VehicleID{ID: "back-reference"}, IsEntityInMessage: true}
@@ -183,7 +199,7 @@ func BuildVehicle(v Vehicle, p pres) *gtfs.Vehicle {
 		out.ID = &gtfs.VehicleID{ID: str(x.ID), Label: str(x.Label), LicensePlate: str(x.Plate)}
 	}
 	if v.Trip.IsSome() {
-		out.Trip = BuildTrip(v.Trip.Val(), pres{p.zone, !p.inMsg, false})
+		out.Trip = BuildTrip(v.Trip.Val(), pres{p.zone, !p.inMsg, false, p.alias})
 		if p.back {
 			out.Trip.Vehicle = out
 		}
@@ -228,7 +244,8 @@ func Streams(c Case) (streams [][]int, err string) {
 		}
 	}()
 	ny, _ := time.LoadLocation("America/New_York")
-	press := []pres{{time.UTC, true, false}, {ny, true, false}, {time.FixedZone("x", 20700), false, false}, {time.UTC, false, true}, {ny, true, true}}
+	press := []pres{{time.UTC, true, false, false}, {ny, true, false, false}, {time.FixedZone("x", 20700), false, false, false}, {time.UTC, false, true, false},
+		{ny, true, true, false}, {time.UTC, true, false, true}}
 	seen := map[string]bool{}
 	add := func(b []byte) {
 		if !seen[string(b)] {
